@@ -108,6 +108,59 @@ def nested_functions(repo) -> List:
     return out
 
 
+def _result_unused(fi, node: ast.AST) -> bool:
+    """The value of `node` (a sorted(...) call) and everything edited with it stays inside the function: the names it is bound to, and the
+    receivers of method calls that take those names as arguments, occur in no return value, no attribute/subscript store on other objects,
+    no other call argument and no yield."""
+    fn = fi.node
+    par = {}
+    for n in ast.walk(fn):
+        for c in ast.iter_child_nodes(n):
+            par[id(c)] = n
+    tainted = set()
+    st = node
+    while id(st) in par and not isinstance(st, ast.stmt):
+        st = par[id(st)]
+    if isinstance(st, ast.Assign):
+        for t in st.targets:
+            tainted |= {x.id for x in ast.walk(t) if isinstance(x, ast.Name)}
+    else:
+        return False
+    changed = True
+    edits = set()
+    while changed:
+        changed = False
+        for n in ast.walk(fn):
+            if isinstance(n, ast.Call) and isinstance(n.func, ast.Attribute) and isinstance(n.func.value, ast.Name):
+                if any(isinstance(x, ast.Name) and x.id in tainted for a in n.args for x in ast.walk(a)) and n.func.value.id not in tainted:
+                    tainted.add(n.func.value.id)
+                    edits.add(id(n))
+                    changed = True
+                elif any(isinstance(x, ast.Name) and x.id in tainted for a in n.args for x in ast.walk(a)):
+                    edits.add(id(n))
+            elif isinstance(n, ast.Assign) and any(isinstance(x, ast.Name) and x.id in tainted for x in ast.walk(n.value)):
+                for t in n.targets:
+                    if isinstance(t, ast.Name) and t.id not in tainted:
+                        tainted.add(t.id)
+                        changed = True
+    for n in ast.walk(fn):
+        if isinstance(n, (ast.Return, ast.Yield, ast.YieldFrom)) and n.value is not None and any(isinstance(x, ast.Name) and x.id in tainted for x in ast.walk(n.value)):
+            return False
+        if isinstance(n, ast.Assign):
+            for t in n.targets:
+                if isinstance(t, (ast.Attribute, ast.Subscript)) and any(isinstance(x, ast.Name) and x.id in tainted for x in ast.walk(n.value)):
+                    base = t
+                    while isinstance(base, (ast.Attribute, ast.Subscript)):
+                        base = base.value
+                    if not (isinstance(base, ast.Name) and base.id in tainted):
+                        return False
+        if isinstance(n, ast.Call) and id(n) not in edits and not (isinstance(n.func, ast.Name) and n.func.id in ("len", "sorted", "list", "set", "defaultdict")):
+            if any(isinstance(x, ast.Name) and x.id in tainted for a in list(n.args) + [k.value for k in n.keywords] for x in ast.walk(a)):
+                if not (isinstance(n.func, ast.Attribute) and isinstance(n.func.value, ast.Name) and n.func.value.id in tainted):
+                    return False
+    return True
+
+
 def analyse(chk, repo, modules, label: str) -> int:
     ty = Types(repo)
     exc = json.load(open(os.path.join(VERIF, "spec", "exceptions.json")))["order_taint"]
@@ -129,6 +182,12 @@ def analyse(chk, repo, modules, label: str) -> int:
             fq = f"{fi.module.name}:{fi.qualname}"
             fq_outer = f"{fi.module.name}:{fi.qualname.split('.<locals>.')[0]}"  # a helper nested in a named function is part of that function
             ex = [e for e in exc if fq in e["functions"] or fq_outer in e["functions"]]
+            if ex and ex[0].get("requires_result_unused"):
+                if _result_unused(fi, s.node):
+                    chk.ok("order-taint-exception", site, f"{desc}: named exception - the sorted order reaches no output of this function (dead computation: only a local list is edited and never returned, stored or passed on)")
+                    continue
+                chk.violation("order-taint", site, f"{desc}: sorted(set, key=...) keeps set order among ties and its result now reaches an output of this function: the order differs between interpreters (PYTHONHASHSEED)", key=f"{fq_outer}:sorted-key-live")
+                continue
             if ex and s.key is not None:
                 comps = key_components(fi, s.key)
                 need = set(ex[0]["requires_key_components"])
